@@ -1,6 +1,7 @@
 package zv
 
 import (
+	"go/constant"
 	"go/token"
 	"go/types"
 	"regexp"
@@ -259,92 +260,44 @@ func checkC18(c *Ctx) {
 	hd := c.Method(SlogPath, "Handler", "Handle")
 	wa := c.Method(SlogPath, "Handler", "WithAttrs")
 	if c.Anchor("R18.4", "zapslog.Handler.Handle/WithAttrs", hd != nil && wa != nil) {
-		norm := func(fn *ssa.Function) (atoms []string, call *ssa.Call, owner *ssa.Function) {
-			for _, f := range WithClosures(fn) {
-				for _, cl := range Calls(f) {
-					if IsCallTo(cl, "(*"+SlogPath+".Handler).appendGroups") {
-						call, _ = cl.(*ssa.Call)
-						owner = f
-					}
-				}
-			}
-			if call == nil {
-				return
-			}
-			for _, a := range AtomStrings(Guards(call)) {
-				a = regexp.MustCompile(`^convertAttrToField\(.*\) != Skip\(\)$`).ReplaceAllString(a, "convertAttrToField(·) != Skip()")
-				if strings.Contains(a, "rangeindex") {
-					continue
-				}
-				a = strings.ReplaceAll(a, "φ", "")
-				atoms = append(atoms, a)
-			}
-			sort.Strings(atoms)
-			return
-		}
-		ha, hcall, hfn := norm(hd)
-		waA, wcall, wfn := norm(wa)
-		want := []string{"!addedNamespace", "convertAttrToField(·) != Skip()", "len(h.groups) > 0"}
-		c.Check(hcall != nil && strings.Join(ha, " ∧ ") == strings.Join(want, " ∧ "), "R18.4", hd.String(), "emit-guard", posOfCall(hcall), "pending groups are emitted under exactly ¬added ∧ groups pending ∧ field ≠ Skip (got %v)", ha)
-		c.Check(wcall != nil && strings.Join(waA, " ∧ ") == strings.Join(want, " ∧ "), "R18.4", wa.String(), "emit-guard", posOfCall(wcall), "pending groups are emitted under exactly ¬added ∧ groups pending ∧ field ≠ Skip (got %v)", waA)
-		c.Check(strings.Join(ha, "|") == strings.Join(waA, "|"), "R18.4", SlogPath+".Handler", "siblings-agree", token.NoPos, "Handle and WithAttrs use the same emission condition")
-		// the flag is set right after emission (once)
+		he := c18Emission(hd)
+		we := c18Emission(wa)
 		for _, x := range []struct {
-			fn   *ssa.Function
-			call *ssa.Call
-			n    string
-		}{{hfn, hcall, hd.String()}, {wfn, wcall, wa.String()}} {
-			if x.call == nil {
+			fn *ssa.Function
+			e  *c18Emit
+		}{{hd, he}, {wa, we}} {
+			n := x.fn.String()
+			if x.e == nil {
+				c.Bad("R18.4", n, "emit-guard", x.fn.Pos(), "no call to appendGroups found")
 				continue
 			}
-			setTrue := false
-			for _, i := range x.call.Block().Instrs {
-				if st, ok := i.(*ssa.Store); ok && strings.Contains(Desc(st.Addr), "addedNamespace") && Desc(st.Val) == "true" {
-					setTrue = true
-				}
-			}
-			if !setTrue {
-				// SSA register form: the block's successor phi receives true from this block
-				for _, s := range x.call.Block().Succs {
-					for _, i := range s.Instrs {
-						if ph, ok := i.(*ssa.Phi); ok && ph.Comment == "addedNamespace" {
-							for k, e := range ph.Edges {
-								if s.Preds[k] == x.call.Block() && Desc(e) == "true" {
-									setTrue = true
-								}
-							}
-						}
-					}
-				}
-				// or via intermediate jump-only block / loop header phi
-				if !setTrue {
-					AllInstrs(x.fn, func(i ssa.Instruction) {
-						if ph, ok := i.(*ssa.Phi); ok && ph.Comment == "addedNamespace" {
-							for k, e := range ph.Edges {
-								if Desc(e) == "true" && (ph.Block().Preds[k] == x.call.Block() || x.call.Block().Dominates(ph.Block().Preds[k])) {
-									setTrue = true
-								}
-							}
-						}
-					})
-				}
-			}
-			c.Check(setTrue, "R18.4", x.n, "emitted-once", x.call.Pos(), "the added flag becomes true on the emitting path, so the groups are emitted at most once")
+			c.Check(x.e.problem == "", "R18.4", n, "emit-guard", x.e.call.Pos(), "pending groups are emitted under exactly: not yet emitted ∧ field ≠ Skip (∧ groups pending): %s (guards %v)", x.e.problem, x.e.atoms)
+			c.Check(x.e.once == "", "R18.4", n, "emitted-once", x.e.call.Pos(), "the emitted-state flag is initialised to 'pending', flips on the emitting path and nowhere else, so the groups are emitted exactly once, before the first real field: %s", x.e.once)
+		}
+		if he != nil && we != nil {
+			c.Check(he.problem == "" && we.problem == "" && he.hasSkip == we.hasSkip, "R18.4", SlogPath+".Handler", "siblings-agree", token.NoPos, "Handle and WithAttrs use the same emission condition (%v / %v)", he.atoms, we.atoms)
 		}
 		// WithAttrs clears groups iff emitted
 		cleared := false
-		AllInstrs(wa, func(i ssa.Instruction) {
-			if st, ok := i.(*ssa.Store); ok && Desc(st.Addr) == "cloned.groups" {
-				atoms := AtomStrings(Guards(st))
+		if we != nil {
+			AllInstrs(wa, func(i ssa.Instruction) {
+				st, ok := i.(*ssa.Store)
+				if !ok {
+					return
+				}
+				fa, ok := st.Addr.(*ssa.FieldAddr)
+				if !ok || fieldName(fa.X.Type(), fa.Field) != "groups" || !c18FreshCopy(fa.X, wa.Params[0], 0) {
+					return
+				}
 				has := false
-				for _, a := range atoms {
-					if strings.ReplaceAll(a, "φ", "") == "addedNamespace" {
+				for _, a := range Guards(st) {
+					if we.sameFlag(a.Cond) && a.Pol != we.pendingPol {
 						has = true
 					}
 				}
 				cleared = has && IsNilConst(Strip(st.Val))
-			}
-		})
+			})
+		}
 		c.Check(cleared, "R18.4", wa.String(), "cleared-iff-emitted", wa.Pos(), "the derived handler drops its pending groups exactly when they were emitted into the core")
 	}
 
@@ -375,7 +328,7 @@ func checkC18(c *Ctx) {
 		// returns a fresh clone (or the receiver itself on the no-op branch)
 		for k, r := range Returns(fn) {
 			v := Strip(RetVals(r)[0])
-			_, isAlloc := v.(*ssa.Alloc)
+			isAlloc := c18FreshCopy(v, h, 0)
 			c.Check(isAlloc || v == ssa.Value(h), "R18.5", fn.String(), "returns-clone#"+itoa(k+1), r.Pos(), "returns a fresh copy of the handler (or the untouched receiver): %s", Desc(v))
 		}
 	}
@@ -419,4 +372,240 @@ func posOfCall(c *ssa.Call) token.Pos {
 		return token.NoPos
 	}
 	return c.Pos()
+}
+
+// c18Emit describes how a function decides to emit the handler's pending groups.
+type c18Emit struct {
+	call       *ssa.Call
+	owner      *ssa.Function
+	atoms      []string
+	hasSkip    bool
+	pendingPol bool // the flag value (as tested) that means "not yet emitted"
+	cell       ssa.Value
+	phiName    string
+	problem    string
+	once       string
+}
+
+func (e *c18Emit) sameFlag(cond ssa.Value) bool {
+	cell, phi := c18FlagOf(cond)
+	if e.cell != nil {
+		return cell == e.cell
+	}
+	return e.phiName != "" && phi != nil && phi.Comment == e.phiName
+}
+
+// c18FlagOf: cond reads a local boolean variable (a captured/addressed cell or an SSA register).
+func c18FlagOf(cond ssa.Value) (cell ssa.Value, phi *ssa.Phi) {
+	switch x := cond.(type) {
+	case *ssa.Phi:
+		if b, ok := x.Type().Underlying().(*types.Basic); ok && b.Kind() == types.Bool {
+			return nil, x
+		}
+	case *ssa.UnOp:
+		if x.Op != token.MUL {
+			return nil, nil
+		}
+		switch y := x.X.(type) {
+		case *ssa.Alloc:
+			return y, nil
+		case *ssa.FreeVar:
+			return c18Binding(y), nil
+		}
+	}
+	return nil, nil
+}
+
+func c18Binding(fv *ssa.FreeVar) ssa.Value {
+	fn := fv.Parent()
+	idx := -1
+	for i, f := range fn.FreeVars {
+		if f == fv {
+			idx = i
+		}
+	}
+	if fn.Parent() == nil || idx < 0 {
+		return nil
+	}
+	var out ssa.Value
+	AllInstrs(fn.Parent(), func(i ssa.Instruction) {
+		if mk, ok := i.(*ssa.MakeClosure); ok && mk.Fn == ssa.Value(fn) && idx < len(mk.Bindings) {
+			out = mk.Bindings[idx]
+		}
+	})
+	if f2, ok := out.(*ssa.FreeVar); ok {
+		return c18Binding(f2)
+	}
+	return out
+}
+
+func c18Emission(fn *ssa.Function) *c18Emit {
+	e := &c18Emit{}
+	for _, f := range WithClosures(fn) {
+		for _, cl := range Calls(f) {
+			if IsCallTo(cl, "(*"+SlogPath+".Handler).appendGroups") {
+				e.call, _ = cl.(*ssa.Call)
+				e.owner = f
+			}
+		}
+	}
+	if e.call == nil {
+		return nil
+	}
+	recv := fn.Params[0].Name()
+	var flagAtom *Atom
+	for _, a := range Guards(e.call) {
+		a := a
+		s := AtomString(a)
+		e.atoms = append(e.atoms, s)
+		switch {
+		case regexp.MustCompile(`^convertAttrToField\(.*\) != Skip\(\)$`).MatchString(s):
+			e.hasSkip = true
+		case strings.Contains(s, "rangeindex"):
+			// iterating the attributes
+		case s == "len("+recv+".groups) > 0":
+			// optional: appending no groups is a no-op
+		default:
+			cell, phi := c18FlagOf(a.Cond)
+			if (cell != nil || phi != nil) && flagAtom == nil {
+				flagAtom = &a
+				e.cell = cell
+				if phi != nil {
+					e.phiName = phi.Comment
+				}
+				e.pendingPol = a.Pol
+				continue
+			}
+			e.problem += "extra condition " + s + " restricts the emission; "
+		}
+	}
+	if !e.hasSkip {
+		e.problem += "the groups are emitted even for a Skip field (an empty group would appear); "
+	}
+	if flagAtom == nil {
+		e.problem += "no emitted-state flag guards the emission; "
+		e.once = "no flag"
+		return e
+	}
+	// definitions of the flag
+	type def struct {
+		val   ssa.Value
+		at    *ssa.BasicBlock
+		owner *ssa.Function
+	}
+	var defs []def
+	if e.cell != nil {
+		for _, f := range WithClosures(fn) {
+			AllInstrs(f, func(i ssa.Instruction) {
+				st, ok := i.(*ssa.Store)
+				if !ok {
+					return
+				}
+				tgt := st.Addr
+				if fv, ok := tgt.(*ssa.FreeVar); ok {
+					tgt = c18Binding(fv)
+				}
+				if tgt == e.cell {
+					defs = append(defs, def{st.Val, st.Block(), f})
+				}
+			})
+		}
+		// an addressed bool starts as false unless stored first
+		hasInit := false
+		for _, d := range defs {
+			if d.owner == fn && !(d.owner == e.owner && e.call.Block().Dominates(d.at)) {
+				hasInit = true
+			}
+		}
+		if !hasInit {
+			defs = append(defs, def{ssa.NewConst(constant.MakeBool(false), types.Typ[types.Bool]), nil, fn})
+		}
+	} else {
+		seen := map[*ssa.Phi]bool{}
+		var walk func(ph *ssa.Phi)
+		walk = func(ph *ssa.Phi) {
+			if seen[ph] {
+				return
+			}
+			seen[ph] = true
+			for k, ed := range ph.Edges {
+				if p2, ok := ed.(*ssa.Phi); ok {
+					walk(p2)
+					continue
+				}
+				defs = append(defs, def{ed, ph.Block().Preds[k], ph.Parent()})
+			}
+		}
+		AllInstrs(e.owner, func(i ssa.Instruction) {
+			if ph, ok := i.(*ssa.Phi); ok && ph.Comment == e.phiName {
+				walk(ph)
+			}
+		})
+	}
+	flipped := false
+	pend := "false"
+	if e.pendingPol {
+		pend = "true"
+	}
+	for _, d := range defs {
+		after := d.at != nil && d.owner == e.owner && (d.at == e.call.Block() || e.call.Block().Dominates(d.at))
+		dv := Desc(d.val)
+		switch {
+		case after && (dv == "true" || dv == "false") && dv != pend:
+			flipped = true
+		case after:
+			e.once += "after the emission the flag becomes " + dv + "; "
+		case dv == pend:
+			// initialised to "pending"
+		case e.pendingPol && dv == "(len("+recv+".groups) > 0)":
+			// initialised to "there are groups pending"
+		default:
+			e.once += "the flag is also set to " + dv + " off the emitting path; "
+		}
+	}
+	if !flipped {
+		e.once += "the flag does not flip on the emitting path; "
+	}
+	return e
+}
+
+// c18FreshCopy: v is the address of a new Handler initialised as a copy of *h
+// (directly, or returned by a helper that does just that).
+func c18FreshCopy(v ssa.Value, h ssa.Value, depth int) bool {
+	v = Strip(v)
+	switch x := v.(type) {
+	case *ssa.Alloc:
+		copied := false
+		for _, r := range *x.Referrers() {
+			if st, ok := r.(*ssa.Store); ok && st.Addr == ssa.Value(x) {
+				if ld, ok := st.Val.(*ssa.UnOp); ok && ld.Op == token.MUL && Strip(ld.X) == h {
+					copied = true
+				}
+			}
+		}
+		return copied
+	case *ssa.Call:
+		hp := helperOf(x)
+		if hp == nil || depth > 2 || len(hp.Params) == 0 {
+			return false
+		}
+		// which parameter receives h
+		var hpParam ssa.Value
+		for i, a := range x.Call.Args {
+			if Strip(a) == h && i < len(hp.Params) {
+				hpParam = hp.Params[i]
+			}
+		}
+		if hpParam == nil {
+			return false
+		}
+		rets := Returns(hp)
+		for _, r := range rets {
+			if !c18FreshCopy(RetVals(r)[0], hpParam, depth+1) {
+				return false
+			}
+		}
+		return len(rets) > 0
+	}
+	return false
 }
